@@ -324,6 +324,8 @@ func (h *floodHandler) ServeNostr(ctx context.Context, send chan<- mocrelay.Serv
 }
 
 func runC13WS(sendTimeoutMs, pingMs int) {
+	time.Sleep(time.Millisecond)
+	base, _ := repoGoroutines()
 	h := &floodHandler{ended: make(chan time.Duration, 1)}
 	opt := mocrelay.NewDefaultRelayOption()
 	opt.SendTimeout = time.Duration(sendTimeoutMs) * time.Millisecond
@@ -353,6 +355,18 @@ func runC13WS(sendTimeoutMs, pingMs int) {
 	}
 	srv.CloseClientConnections()
 	srv.Close()
+	// nothing of the session may be left: the loops, the handler and any ping still waiting for its pong
+	left, sample := waitGoroutines(base, 3*time.Second)
+	if left < 0 {
+		left = 0
+	}
+	out["leftover"] = left
+	if left > 0 {
+		if len(sample) > 1500 {
+			sample = sample[:1500]
+		}
+		out["sample"] = sample
+	}
 	emit(M{"op": "c13ws", "send_timeout_ms": sendTimeoutMs, "ping_ms": pingMs, "out": out})
 }
 
